@@ -782,6 +782,8 @@ type meta struct {
 	TokenIPs          int            `json:"token_ips_accepted"`
 	TokenExhLen       int            `json:"token_exhaustive_len"`
 	HistoryCases      int            `json:"history_cases"`
+	LimiterCases      int            `json:"limiter_exhausted_cases"`
+	LimiterThrottled  bool           `json:"limiter_was_exhausted"`
 	ConnSkippedPanics int            `json:"conn_inputs_skipped_because_readheader_panics"`
 	ConnCases         int            `json:"conn_cases"`
 	ConnTCP           int            `json:"conn_cases_tcp"`
